@@ -424,13 +424,13 @@ pub fn property() -> Property {
             s.push(SubCheck { name: $name, scalar: $scalar, quick: $q, thorough: $t, len: $len, f: $f, required: $req, rule: $rule, exhaustive: false });
         };
     }
-    add!("lerp-Q", "Q", lerp_all::<Q>, 3000, 200_000, 360, &[("interior-or-extrapolating", 500)], "t not in {0,1}");
-    add!("lerp-Fp", "Fp", lerp_all::<Fp>, 3000, 200_000, 360, &[("interior-or-extrapolating", 500)], "t not in {0,1}");
+    add!("lerp-Q", "Q", lerp_all::<Q>, 3000, 200_000, 448, &[("interior-or-extrapolating", 500)], "t not in {0,1}");
+    add!("lerp-Fp", "Fp", lerp_all::<Fp>, 3000, 200_000, 448, &[("interior-or-extrapolating", 500)], "t not in {0,1}");
     add!("lerp-f64", "f64", lerp_f64, 6000, 400_000, 64, &[("equal-operands", 100), ("nearby-operands", 100), ("generic", 200)], "t not in {0,1}");
-    add!("lerp-i32", "i32", lerp_i32, 1500, 100_000, 32, &[("no-overflow", 100)], "every operand tuple over the whole integer range");
-    add!("lerp-u32", "u32", lerp_u32, 1500, 100_000, 32, &[("no-overflow", 100)], "every operand tuple over the whole integer range");
-    add!("lerp-i8", "i8", lerp_i8, 1500, 100_000, 32, &[("no-overflow", 100)], "every operand tuple over the whole integer range");
-    add!("lerp-u64", "u64", lerp_u64, 1500, 100_000, 32, &[("no-overflow", 100)], "every operand tuple over the whole integer range");
+    add!("lerp-i32", "i32", lerp_i32, 1500, 100_000, 48, &[("no-overflow", 100)], "every operand tuple over the whole integer range");
+    add!("lerp-u32", "u32", lerp_u32, 1500, 100_000, 48, &[("no-overflow", 100)], "every operand tuple over the whole integer range");
+    add!("lerp-i8", "i8", lerp_i8, 1500, 100_000, 48, &[("no-overflow", 100)], "every operand tuple over the whole integer range");
+    add!("lerp-u64", "u64", lerp_u64, 1500, 100_000, 48, &[("no-overflow", 100)], "every operand tuple over the whole integer range");
     add!("nlerp_slerp-f64", "f64", interp_f64, 20000, 1_000_000, 80,
         &[("generic+", 50), ("generic-", 50), ("generic-endpoint", 30), ("nearly-parallel", 30), ("nearly-opposite", 30), ("hand-over+", 50), ("hand-over-", 50), ("orthogonal", 30), ("orthogonal-disjoint-support", 30), ("hand-over-exactly-at-threshold", 20), ("nearly-orthogonal", 30), ("barely-obtuse", 15), ("barely-acute", 15), ("equal", 15), ("exactly-opposite", 15)],
         "every generated pair; all pair classes, both signs of a.b and both endpoints required");
